@@ -28,7 +28,16 @@ func c02Scenario(s shape, i int, after bool, extra int, r *vx.Rand) {
 	if after {
 		kind = hub.CrashAfter
 	}
-	g.AddFault(&hub.Fault{Kind: kind, Client: sr.a, N: i})
+	if extra == 4 {
+		// instead of dying, the caller's context of Commit ends at that request (not executed / executed, answer not read)
+		kind = hub.DropBefore
+		if after {
+			kind = hub.DropAfter
+		}
+		g.AddFault(&hub.Fault{Kind: kind, Client: sr.a, N: i, Cancel: sr.cancel})
+	} else {
+		g.AddFault(&hub.Fault{Kind: kind, Client: sr.a, N: i})
+	}
 	var side chan struct{}
 	if extra == 1 || extra == 2 {
 		side = make(chan struct{})
@@ -106,6 +115,9 @@ func runC02() {
 				extras := []int{0}
 				if run.Thorough() || n%4 == 0 {
 					extras = append(extras, 3)
+				}
+				if run.Thorough() || n%4 == 1 {
+					extras = append(extras, 4)
 				}
 				if run.Thorough() {
 					extras = append(extras, 1+r.Intn(2))
